@@ -257,7 +257,10 @@ class ConvexSpheropolygon(Shape2D):
             a = 1
             b = -2 * norm_v * np.cos(angles[indices] - phi)
             c = norm_v**2 - self.radius**2
-            kernel[indices] = (-b + np.sqrt(b**2 - 4 * a * c)) / (2 * a)
+            # With a vanishing rounding radius the discriminant is zero at the vertex
+            # direction and can come out slightly negative through rounding.
+            discriminant = np.maximum(b**2 - 4 * a * c, 0)
+            kernel[indices] = (-b + np.sqrt(discriminant)) / (2 * a)
 
         return kernel
 
